@@ -422,7 +422,7 @@ Fixpoint wf_from (w bi : nat) (first amp cm : bool) (f : list string) : bool :=
        else andb (Nat.ltb bi 3) (andb (negb (late_c x))
         (if spec_comment x then andb (negb amp) (andb (negb (amp_suffix x)) (wf_from w bi first false true r))
          else andb (negb (contains "#"%char (takeS 5 x)))
-              (andb (Bool.eqb (spec_amp x) (amp_suffix x)) (wf_from w bi false (spec_amp x) cm r)))))))
+              (andb (Bool.eqb (spec_amp x) (amp_suffix x)) (wf_from w bi false (spec_amp x) cm r))))))
   end.
 
 Definition wf_lines (w : nat) (f : list string) : bool := wf_from w 0 true false false f.
